@@ -526,6 +526,20 @@ func (c *Converter) convertVocabulary(p *rdf.ParsedVocabulary, refs map[string]*
 			return
 		}
 	}
+	// A disjointWith declaration naming a type of this vocabulary that had
+	// not been converted yet was skipped by convertType. Apply those now, so
+	// that a declaration made on one side only is honored whatever the order
+	// of conversion was.
+	for _, t := range p.Vocab.Types {
+		for _, disj := range t.DisjointWith {
+			if len(disj.Vocab) != 0 {
+				continue
+			}
+			if other, ok := v.Types[disj.Name]; ok {
+				v.Types[t.Name].AddDisjoint(other)
+			}
+		}
+	}
 	return
 }
 
